@@ -145,7 +145,7 @@ func c12Gen(tier string, emit func(c12Case)) {
 	}
 	n := 0
 	c01Gen(tier, func(cs c01Case) {
-		if cs.Fam == "atoms" {
+		if cs.Fam == "atoms" || cs.Fam == "sibs" {
 			return // the atom catalogue builds its own graphs; its reports are single-trace and add nothing here
 		}
 		n++
